@@ -54,3 +54,17 @@ Proof.
     + congruence.
     + apply (IH (DSub x l)); [cbn [deval]; rewrite E; reflexivity | exact H].
 Qed.
+
+(* C15: the reordering executor of PermP (oracle `w` after every operator) with a sub applied last *)
+Theorem deval_nd_sub_top_equiv (w : dset -> dset) : (forall d, dequiv d (w d)) ->
+  forall x l, no_sub x = true ->
+  forall e r, env_wf e -> deval e (DSub x l) = Ok r ->
+  exists r', deval_nd w e (DSub x l) = Ok r' /\ dequiv r r'.
+Proof.
+  intros Hw x l Hs e r We H. cbn [deval deval_nd] in *.
+  destruct (deval e x) as [d|c] eqn:E; cbn in H; [|discriminate].
+  injection H as <-.
+  destruct (deval_nd_equiv w Hw x Hs e d We E) as [d' [E' [Hq _]]].
+  rewrite E'. cbn. exists (w (d_sub d' l)). split; [reflexivity|].
+  eapply dequiv_trans; [apply d_sub_dequiv; exact Hq | apply Hw].
+Qed.
